@@ -1,3 +1,221 @@
-import WR.C09.Spec
+/-
+  C09 — property theorems.  Only statements of the property (about the model the driver `wrm_c09`
+  executes: WR/C09/Model.lean) and their proofs; the lemmas live in WR/C09/Lemmas*.lean.
+
+  Reading guide
+  * `R` is `Except String`: `.error` models a Go panic (or exhausted fuel); "∃ r, f x = .ok r" is
+    therefore "no panic, the loop terminates within its fuel".
+  * `allN p b` : `p ty attrs children` holds at every box of `b` reachable through children without
+    entering a running box (`position: running()`; every pass but BlockInInline returns those unchanged).
+  * The clauses `bcOK` (= `blockContainerOK`), `fgOK` (= `flexGridOK`), `gridOK`, `linesClean` are the
+    clauses of the spec `WF` (WR/C09/Spec.lean) or imply them; `preIIB`, `preFG`, `linesAlone` describe the
+    shape an earlier pass leaves behind.
+
+  Two statements of the property are FALSE for the code as it is (both confirmed on the real code, see
+  known_findings.d/C09.json); for each the full statement is kept in a comment, the provable part is a
+  theorem named `…_partial`, and a concrete counterexample is proved (`…_witness`).
+-/
+import WR.C09.LemmasGrid
+import WR.C09.LemmasIIB
+import WR.C09.LemmasBII
+import WR.C09.LemmasFlex
+import WR.C09.LemmasTable
 namespace WR.Props.C09
+open WR.C09
+
+/-! ## 1. Grid-slot assignment of wrapTable -/
+
+/-- `for occupied[gridX] { gridX++ }` stops (within the fuel of the model) on the first free column. -/
+theorem firstFree_is_first_free (occ : List Nat) (gx : Nat) :
+    gx ≤ firstFree occ gx ∧ firstFree occ gx ∉ occ ∧ ∀ j, gx ≤ j → j < firstFree occ gx → j ∈ occ :=
+  ⟨firstFree_ge occ gx, firstFree_not_mem occ gx, fun j => firstFree_min occ gx j⟩
+
+/-- every cell is put on the first free column at or after the end of the previous cell of its row -/
+inductive FirstFreeFrom (occ : List Nat) : Nat → List Box → Prop
+  | nil (gx : Nat) : FirstFreeFrom occ gx []
+  | cons (gx : Nat) (c : Box) (cs : List Box) :
+      c.a.gridX = firstFree occ gx → FirstFreeFrom occ (c.a.gridX + c.a.colspan) cs → FirstFreeFrom occ gx (c :: cs)
+
+theorem grid_first_free (cells : List Box) (occThis : List Nat) (following : List (List Nat)) (gx0 : Nat) :
+    FirstFreeFrom occThis gx0 (cellsGo cells occThis following gx0).1 := by
+  induction cells generalizing following gx0 with
+  | nil => exact .nil _
+  | cons c cs ih =>
+    rw [cellsGo_cons]
+    refine .cons _ _ _ ?_ ?_
+    · cases c; rfl
+    · have : (placed c occThis following gx0).a.gridX + (placed c occThis following gx0).a.colspan
+          = firstFree occThis gx0 + c.a.colspan := by cases c; rfl
+      rw [this]; exact ih _ _
+
+/-- the cells of one row: source order, pairwise disjoint, each starting on a column that no
+    row-spanning cell of an earlier row occupies; everything but GridX and Rowspan is left alone -/
+theorem grid_row (cells : List Box) (occThis : List Nat) (following : List (List Nat)) (gx0 : Nat) :
+    let out := (cellsGo cells occThis following gx0).1
+    out.Pairwise (fun a b => a.a.gridX + a.a.colspan ≤ b.a.gridX) ∧
+    (∀ c ∈ out, gx0 ≤ c.a.gridX ∧ c.a.gridX ∉ occThis) ∧
+    (∀ c ∈ out, 1 ≤ c.a.rowspan ∧ c.a.rowspan ≤ following.length + 1) ∧
+    out.map cellKey = cells.map cellKey :=
+  ⟨cellsGo_sorted cells occThis following gx0, cellsGo_gridX_free cells occThis following gx0,
+   cellsGo_rowspan cells occThis following gx0, cellsGo_key cells occThis following gx0⟩
+
+/-- the grid loop never indexes out of range, whatever the rows and cells are -/
+theorem grid_no_panic (gs : List Box) : ∃ out, groupsGo gs = .ok out ∧ out.length = gs.length :=
+  groupsGo_ok gs
+
+/-
+  FULL STATEMENT (false for the code):
+    theorem grid_disjoint (g g' : Box) (h : groupGo g = .ok g')
+        (hc : ∀ row ∈ g.kids, ∀ c ∈ rowCells row, 1 ≤ c.a.colspan) : gridOK g'.ty g'.kids = true
+  i.e. for colspan ≥ 1 no two cells of a row group share a slot, spans are non-empty and stay in the group.
+  It fails because only the FIRST column of a cell is tested against the occupied set: a colspan-2 cell
+  whose first column is free runs into a rowspan-2 cell of the previous row (`grid_disjoint_witness`,
+  replayed on the real code as KF09-1; CSS 2.1 §17.5 leaves this case undefined).  What holds:
+-/
+
+/-- for every row group: the first column of every cell is occupied by that cell alone, and the cells
+    of one row never overlap (no hypothesis on spans) -/
+theorem grid_disjoint_partial (g g' : Box) (h : groupGo g = .ok g') : firstSlotsOK g'.kids = true :=
+  groupGo_firstSlotsOK g g' h
+
+/-- … and the full grid clause of `WF` holds when no cell spans several columns -/
+theorem grid_disjoint_colspan1 (g g' : Box) (h : groupGo g = .ok g')
+    (hcs : ∀ row ∈ g.kids, ∀ c ∈ rowCells row, c.a.colspan = 1) : gridOK g'.ty g'.kids = true :=
+  groupGo_gridOK g g' h hcs
+
+example : ∀ row ∈ witnessGroup.kids.take 1, ∀ c ∈ rowCells row, c.a.colspan = 1 := by decide
+
+/-- the counterexample to `grid_disjoint`: rows `[1×1, 1×2]`, `[2×1]` (colspan×rowspan) -/
+theorem grid_disjoint_witness :
+    ∃ g', groupGo witnessGroup = .ok g' ∧ gridOK g'.ty g'.kids = false ∧ firstSlotsOK g'.kids = true :=
+  grid_overlap_witness
+
+/-! ## 2. InlineInBlock -/
+
+/-- On every tree in which no box has a line-box child and block containers have only block-level or
+    inline-level children, InlineInBlock does not panic, keeps the root, and afterwards every block
+    container holds either only block-level boxes or exactly one line box; line boxes occur nowhere else. -/
+theorem inlineInBlock_wf (b : Box) (h : allN preIIB b = true) :
+    ∃ b', inlineInBlock b = .ok b' ∧ b'.ty = b.ty ∧ b'.a = b.a ∧
+      allN bcOK b' = true ∧ allN linesAlone b' = true :=
+  WR.C09.inlineInBlock_wf b h
+
+example : allN preIIB exIIB = true := by decide
+
+/-! ## 2b. BlockInInline (with the termination of its resume loop) -/
+
+/-- progress of the resume loop: whenever innerBlockInInline returns a block, the new resume stack is a
+    valid position strictly later in the line (the number of in-flow block-level boxes still reachable
+    through inline boxes decreases) — for every box and every stack -/
+theorem innerBlockInInline_progress (c : Box) (st : Resume) (c' blk : Box) (st' : Resume)
+    (h : innerBII c st = .ok (c', some (blk, st'))) :
+    st' ≠ [] ∧ validStack c st' = true ∧ remaining c st' < remaining c st :=
+  innerBII_progress_free c st c' blk st' h
+
+/-- … and that number is at most the size of the line box, which is why the fuel `size + 1` suffices -/
+theorem resume_measure_bound (c : Box) : remaining c [] ≤ c.size := remaining_le_size c
+
+/-- BlockInInline is total (no "Should not skip here", no "Line boxes should have no siblings", the
+    resume loop ends within its fuel) on every tree in which, at every box (also below running boxes),
+    a line box only occurs as the single child of a block container -/
+theorem blockInInline_total (b : Box) (h : allAll linesAlone b = true) :
+    ∃ b', blockInInline b = .ok b' ∧ b'.ty = b.ty ∧ b'.a = b.a :=
+  WR.C09.blockInInline_total b h
+
+/-- the same with hypotheses that stop at running boxes, provided no line box is running and no inline
+    box reachable from a line is running (BlockInInline enters those although `allN` does not) -/
+theorem blockInInline_total_flow (b : Box) (h : allN linesAlone b = true)
+    (h3 : allN linesNoRunningInline b = true) (h4 : allN linesNotRunning b = true) :
+    ∃ b', blockInInline b = .ok b' ∧ b'.ty = b.ty ∧ b'.a = b.a :=
+  blockInInline_total' b h h3 h4
+
+/-- after BlockInInline no line box contains an in-flow block-level box, directly or through inline
+    boxes: blocks inside inlines have split them -/
+theorem blockInInline_wf (b b' : Box) (hb : blockInInline b = .ok b') (h : allAll linesAlone b = true) :
+    allN linesClean b' = true :=
+  blockInInline_linesClean b b' hb h
+
+/-
+  FULL STATEMENT (false for the code):
+    theorem blockInInline_keeps_blockContainers (b b' : Box) (hb : blockInInline b = .ok b')
+        (h1 : allN bcOK b = true) (h2 : allN linesAlone b = true) : allN bcOK b' = true
+  i.e. splitting preserves the block-container clause.  It fails when an inline box with
+  `position: running()` contains a block-level box: every earlier pass left that subtree untouched,
+  BlockInInline splits it nevertheless and hoists a block whose content never got its line boxes
+  (`running_inline_split`, replayed on the real code as KF09-2: layout then panics).  What holds:
+-/
+
+theorem blockInInline_keeps_blockContainers_partial (b b' : Box) (hb : blockInInline b = .ok b')
+    (h1 : allN bcOK b = true) (h2 : allN linesAlone b = true)
+    (h3 : allN linesNoRunningInline b = true) (h4 : allN linesNotRunning b = true) :
+    allN bcOK b' = true :=
+  blockInInline_bcOK b b' hb h1 h2 h3 h4
+
+/-- the counterexample: Block[Line[Inline(running)["a", Block["b"], "c"]]] -/
+theorem running_inline_split :
+    ∃ b', blockInInline splitWitness = .ok b' ∧ allN bcOK splitWitness = true ∧
+      allN linesAlone splitWitness = true ∧ allN bcOK b' = false :=
+  running_inline_split_witness
+
+example : allAll linesAlone splitWitness = true := by decide
+
+/-! ## 3. Flex and grid items -/
+
+/-- When the children of flex and grid containers are block-level or inline-level (what the table pass
+    leaves: everything else is wrapped or, in flex containers, dropped), then after FlexBoxes and GridBoxes
+    every child of a flex or grid container is block-level (inline-level children, text included, sit in
+    anonymous block boxes; blank text is gone). -/
+theorem flexGrid_wf (b : Box) (h : allN preFG b = true) : allN fgOK (gridBoxes (flexBoxes b)) = true :=
+  WR.C09.flexGrid_wf b h
+
+example : allN preFG fgExample = true := by decide
+
+/-! ## 4. Table fix-up (AnonymousTableBoxes / tableBoxesChildren / wrapTable) -/
+
+/-- "Apply the rules again on the new wrapper" terminates: for EVERY box and EVERY list of children the
+    re-application depth is at most 5 (the driver grants `tbcFuel` = 8), `wrapTable` never meets a child it
+    cannot classify (no nil-map panic), and the grid loop never indexes out of range. -/
+theorem tableBoxesChildren_total (box : Box) (children : List Box) :
+    ∃ r, tbc tbcFuel box children = .ok r ∧
+      (isTable box.ty = false → r.ty = box.ty) ∧
+      (isTable box.ty = true → (r.ty = .block ∨ r.ty = .inlineBlock) ∧ r.a.tw = true) :=
+  tbc_total_res box children
+
+theorem tableBoxesChildren_fuel (f : Nat) (hf : 5 ≤ f) (box : Box) (children : List Box) :
+    ∃ r, tbc f box children = .ok r :=
+  tbc_total_of_ge f hf box children
+
+/-- AnonymousTableBoxes is total on every tree -/
+theorem anonymousTableBoxes_total (b : Box) : ∃ r, anonTable b = .ok r := anonTable_total b
+
+/-- rules 1.1–3.2 at the returned box, for every non-table parent box: a column has no child, a column
+    group only columns, a row group only rows, a row only cells, a cell sits only in a row, and a proper
+    table child (row group, row, column group, column, caption) only under one of its proper parents —
+    so in a block, inline, flex, grid or cell parent none is left: they are all inside anonymous tables. -/
+theorem table_fixup_children (b : Box) (ht : isTable b.ty = false) (hp : isParent b.ty = true)
+    (hr : b.a.running = false) :
+    ∃ it, anonTable b = .ok (b.setKids it) ∧ ∀ x ∈ it,
+      (b.ty ≠ .tableColumn ∧ (b.ty = .tableColumnGroup → x.ty = .tableColumn) ∧
+       (b.ty = .tableRowGroup → x.ty = .tableRow) ∧ (b.ty = .tableRow → x.ty = .tableCell) ∧
+       (x.ty = .tableCell → b.ty = .tableRow) ∧
+       (properTableChild x.ty = true → isInProperParents b.ty x.ty = true)) := by
+  obtain ⟨it, h1, h2⟩ := anonTable_kids b ht hp hr
+  exact ⟨it, h1, fun x hx => (tbK3_iff b.ty x.ty).mp (h2 x hx)⟩
+
+/-- every table box comes back inside its wrapper: a block (inline-block for an inline table) flagged
+    IsTableWrapper whose children are captions, the table, captions; the table holds only row groups and
+    its ColumnGroups only column groups -/
+theorem table_fixup_wrapper (box : Box) (children : List Box) (ht : isTable box.ty = true) :
+    ∃ r, tbc tbcFuel box children = .ok r ∧ TbTableShape box r :=
+  tbc_shape_table box children ht
+
+/-
+  NOT PROVED (full statement of the design's `table_fixup_wf`): for every raw tree `b`,
+  `anonTable b = .ok r → allN (fun ty a kids => kids.all (childAllowed ty a) && tableKidsOK ty a kids cols) r`
+  together with the shapes `preFG` / `preIIB` that sections 2 and 3 assume, and hence the composition
+  `createAnonymous_wf : RawOK b → ∃ r, createAnonymousBox b = .ok r ∧ WF r` (false as stated anyway because
+  of KF09-1 and KF09-2).  Missing: the induction below the row/column groups of `TbTableShape` and the
+  global induction over `anonTable`.  These clauses are judged on the implementation's output only.
+-/
+
 end WR.Props.C09
